@@ -341,10 +341,22 @@ def history(ctx, seed):
                 if not isinstance(o.train.index, type(Bf.index)):
                     continue
                 Bf.columns = o.train.columns
-                st, _ = call(o.obj, "update", Bf.copy(deep=True))
+                # update_predict(X) is update(X) followed by predict(X): used for a third of the events
+                up_op = "update_predict" if rng.random() < 0.35 else "update"
+                st, up_val = call(o.obj, up_op, Bf.copy(deep=True))
                 ctx.stat("update_events")
                 if st == "ok":
                     o.train = Bf.combine_first(o.train)
+                    if up_op == "update_predict":
+                        ctx.stat("update_predict_events")
+                        twins_u, _ = build_twins(o, ctx)
+                        for tname, t in (twins_u or []):
+                            tst, tval = call(t, "predict", twin_copy(Bf))
+                            if tst != "ok" or not same_value(up_val, tval):
+                                ctx.violation(sub, "update_predict-vs-fit-combined", f"history {seed} step {step}: "
+                                              f"{short(o.spec)}.update_predict(X[{Bf.shape}]) = {str(up_val)[:120]!r} "
+                                              f"but fit(old+new).predict(X) of the {tname} twin gives "
+                                              f"{str(tval)[:120]!r}", {"seed": seed, "step": step})
                     # fitted parameters must equal those of fit(old + new)
                     twins, err = build_twins(o, ctx)
                     if twins:
